@@ -362,6 +362,21 @@ func main() {
 		for _, s := range allSpecs() {
 			fmt.Printf("%-6s %-22s pkg=%s\n", s.Property, s.Name, s.Pkg)
 		}
+	case "count":
+		// work items per property and harness for a tier (planning aid)
+		tier := "quick"
+		if len(os.Args) > 2 {
+			tier = os.Args[2]
+		}
+		tot := map[string]int{}
+		for _, s := range allSpecs() {
+			n := len(s.tuples(tier))
+			tot[s.Property] += n
+			fmt.Printf("%-5s %-16s %6d\n", s.Property, s.Name, n)
+		}
+		for p, n := range tot {
+			fmt.Printf("TOTAL %-5s %6d\n", p, n)
+		}
 	case "selftest":
 		os.Exit(selftest())
 	default:
